@@ -1156,6 +1156,14 @@ def _stamp_forward_failures():
                 if rc != 0 or ran != sorted([names_['list'], names_['out'], names_['top']]) or ood or top != 'top:v2 longer\n':
                     fails.append(dict(input=hist + '; change src; redo-ifchange top', observed='exit %d, scripts run: %s, redo-ood: %s, top = %r' % (rc, ran, ood, top), label='unlocked.second_phase_is_target',
                                       clause='when the checksum changes every dependent is rebuilt before the same command returns success'))
+                # (3) the same decision taken one level down: `redo <top>` forces top's script, whose own redo-ifchange of `out` --
+                # started by a script, with REDO_TARGET / REDO_PWD set -- meets the uncertain checksummed dependency
+                open(os.path.join(proj, names_['src']), 'w').write('v3 longer still\n')
+                rc, ran = step(['redo', '--no-log', names_['top']])
+                top = open(os.path.join(proj, names_['top'])).read() if os.path.exists(os.path.join(proj, names_['top'])) else None
+                if rc != 0 or ran != sorted([names_['list'], names_['out'], names_['top']]) or top != 'top:v3 longer still\n':
+                    fails.append(dict(input=hist + '; change src; redo-ifchange top; change src; redo top', observed='exit %d, scripts run: %s, top = %r' % (rc, ran, top), label='unlocked_argv.target_then_the_uncertain_dependencies',
+                                      clause='the out-of-band decision taken by a redo-ifchange that a script started builds the same files'))
     finally:
         shutil.rmtree(work, ignore_errors=True)
     return fails, n
